@@ -463,10 +463,93 @@ func foldBin(op string, w int, x, y uint64) (uint64, bool) {
 	return 0, false
 }
 
+// ubound returns an upper bound of the unsigned value of a term when one is syntactically evident
+// (constants, ite-trees, sums and products without wrap-around, zero extensions).
+var uboundMemo = map[int][2]uint64{}
+
+// lemmas are valid bit-vector facts about terms that occur in the encoding; they are added to every query.
+var lemmas []*Term
+var lemmaSeen = map[int]bool{}
+
+func ubound(t *Term) (uint64, bool) {
+	if t.konst {
+		return t.val, true
+	}
+	if m, ok := uboundMemo[t.id]; ok {
+		return m[0], m[1] == 1
+	}
+	var r uint64
+	ok := false
+	lim := mask(t.w)
+	switch t.op {
+	case "ite":
+		a, oka := ubound(t.args[1])
+		b, okb := ubound(t.args[2])
+		if oka && okb {
+			r, ok = a, true
+			if b > a {
+				r = b
+			}
+		}
+	case "zext":
+		r, ok = ubound(t.args[0])
+		if !ok {
+			r, ok = mask(t.args[0].w), true
+		}
+	case "bvadd":
+		a, oka := ubound(t.args[0])
+		b, okb := ubound(t.args[1])
+		if oka && okb && a <= lim-b && a+b <= lim {
+			r, ok = a+b, true
+		}
+	case "bvmul":
+		a, oka := ubound(t.args[0])
+		b, okb := ubound(t.args[1])
+		if oka && okb && (a == 0 || b <= lim/a) {
+			r, ok = a*b, true
+		}
+	case "extract":
+		r, ok = mask(t.w), true
+	}
+	if ok {
+		uboundMemo[t.id] = [2]uint64{r, 1}
+	} else {
+		uboundMemo[t.id] = [2]uint64{0, 0}
+	}
+	return r, ok
+}
+
 func BinBV(op string, a, b *Term) *Term {
 	w := a.w
 	if a.w != b.w {
 		panic(fmt.Sprintf("BinBV %s width mismatch %d vs %d", op, a.w, b.w))
+	}
+	// (x * c) / c = x and (x * c) % c = 0 when x * c cannot wrap (bound evident from the term)
+	if (op == "bvsdiv" || op == "bvudiv" || op == "bvsrem" || op == "bvurem") && b.konst && b.val != 0 && a.op == "bvmul" && a.args[1] == b {
+		if ux, ok := ubound(a.args[0]); ok && signed(b.val, w) > 0 && ux <= (mask(w)>>1)/b.val {
+			if op == "bvsdiv" || op == "bvudiv" {
+				return a.args[0]
+			}
+			return BV(w, 0)
+		}
+		// otherwise hand the solver the (valid) arithmetic lemma for this very term:
+		//   0 <= x <= maxint/c  =>  (x*c)/c = x  and  (x*c)%c = 0
+		if signed(b.val, w) > 0 {
+			x := a.args[0]
+			t := mk(op, w, []*Term{a, b}, 0, "")
+			if !lemmaSeen[t.id] {
+				lemmaSeen[t.id] = true
+				inRange := And(Cmp("bvsle", BV(w, 0), x), Cmp("bvsle", x, BV(w, (mask(w)>>1)/b.val)))
+				var concl *Term
+				if op == "bvsdiv" || op == "bvudiv" {
+					concl = Eq(t, x)
+				} else {
+					concl = Eq(t, BV(w, 0))
+				}
+				lemmas = append(lemmas, Imp(inRange, concl))
+			}
+			return t
+		}
 	}
 	if a.konst && b.konst {
 		if v, ok := foldBin(op, w, a.val, b.val); ok {
